@@ -723,11 +723,129 @@ def rule_resource_typestate(prog, fixture=False):
     return r
 
 
+# ---------------------------------------------------------------- R-C08-9
+def rule_tables_filled(prog, fixture=False):
+    r = RuleResult("R-C08-9", "every function that builds one of the extension-token tables (`const char **output`) "
+                   "fills the whole table on every path: the fill-with-invalid helper is called before anything "
+                   "else and unconditionally (an entry left unset is an uninitialised pointer that a token byte "
+                   "can select)", floor=0 if fixture else 3)
+    fillers = [f for f in prog.functions.values() if f.name == "build_invalid_map"]
+    if not fillers and not fixture:
+        r.undecided.append("no build_invalid_map function found")
+        return r
+    fkeys = {f.key for f in fillers}
+    for fn in prog.functions.values():
+        outp = [p_ for p_ in fn.params if (p_.get("t") or "").replace(" ", "") == "constchar**"]
+        if not outp or fn.key in fkeys or not fn.name.startswith("build_map"):
+            continue
+
+        def transfer(x, outp=outp):
+            if x.get("k") == "CallExpr" and x.get("fn") in fkeys:
+                a = call_args(x)
+                if a and (strip_all(a[0]) or {}).get("d") == outp[0]["d"]:
+                    return True
+            return None
+        at = flow.must_hold_at(fn, transfer)
+        # at every store into the table and at every exit the table is known to have been filled
+        bad = None
+        for n in fn.walk():
+            if n.get("k") == "ReturnStmt" and at(n) is False:
+                bad = n
+        # implicit return at the end of a void function: the exit block's predecessors
+        cfg = fn.cfg
+        ends = [p_ for p_ in cfg.pred.get(cfg.exit, []) if p_ in cfg.reachable()]
+        end_ok = True
+        for b in ends:
+            els = [fn.nodes.get(e) for e in cfg.blocks[b]["e"] if isinstance(e, int)]
+            els = [x for x in els if x is not None]
+            probe = els[-1] if els else None
+            if probe is not None and at(probe) is False and not (transfer(probe) is True):
+                end_ok = False
+        ok = bad is None and end_ok
+        r.add("%s::%s::filled" % (fn.relfile(), fn.qn), "%s:%d" % (fn.relfile(), fn.line), ok,
+              "build_invalid_map(output) on every path" if ok else
+              "a path through %s ends without build_invalid_map(%s) having been called: the entries it does not "
+              "assign keep whatever the freshly allocated memory held" % (fn.name, outp[0]["n"]))
+    return r
+
+
+# ---------------------------------------------------------------- R-C08-10
+STRING_CONSUMERS = {"strcmp": [0, 1], "strncmp": [0, 1], "strlen": [0], "strcpy": [1], "strcat": [1], "fputs": [0],
+                    "puts": [0], "strcasecmp": [0, 1], "strchr": [0], "strstr": [0, 1], "strdup": [0]}
+
+
+def _nullable_fields(prog):
+    """(record name, field name) pairs for which some row of a global table holds a null pointer."""
+    out = set()
+    for gl in prog.globals.values():
+        init = strip_all(gl.get("init")) if gl.get("init") else None
+        if init is None or init.get("k") != "InitListExpr":
+            continue
+        gt = notpl((gl.get("ct") or gl.get("t") or "").replace("const ", "").replace("struct ", ""))
+        rname = gt.split("[")[0].strip()
+        rec = [rc for q_, rc in prog.records.items() if notpl(q_).split("::")[-1] == rname.split("::")[-1]]
+        if not rec:
+            continue
+        names = [f_["n"] for f_ in rec[0]["fields"]]
+        ftypes = [f_.get("t") or "" for f_ in rec[0]["fields"]]
+        for row in init.get("c", []):
+            row = strip_all(row)
+            if row is None or row.get("k") != "InitListExpr":
+                continue
+            for i, c in enumerate(row.get("c", [])):
+                if i < len(names) and "*" in ftypes[i] and (folded(c) == 0 or (strip_all(c) or {}).get("null") or c.get("null")):
+                    out.add((rname.split("::")[-1], names[i]))
+    return out
+
+
+def rule_nullable_table_strings(prog, fixture=False):
+    r = RuleResult("R-C08-10", "a string field that is NULL in some row of a constant table (the terminating row) is "
+                   "handed to strcmp/strlen/... only where it was tested non-NULL", floor=0 if fixture else 1)
+    nullable = _nullable_fields(prog)
+    r.info["nullable_fields"] = sorted("%s.%s" % x for x in nullable)
+    for fn in prog.functions.values():
+        g = None
+        k = 0
+        for n in fn.walk():
+            if n.get("k") != "CallExpr":
+                continue
+            name = notpl(n.get("q") or "").split("::")[-1]
+            if name not in STRING_CONSUMERS:
+                continue
+            a = call_args(n)
+            for i in STRING_CONSUMERS[name]:
+                if i >= len(a):
+                    continue
+                e = strip_all(a[i])
+                if e is None or e.get("k") != "MemberExpr" or e.get("dk") != "Field":
+                    continue
+                base = strip_all(e["c"][0]) if e.get("c") else None
+                bt = notpl(((base or {}).get("ct") or (base or {}).get("t") or "").replace("const ", "").replace("struct ", ""))
+                rname = bt.replace("*", "").replace("&", "").strip().split("::")[-1]
+                if (rname, e.get("n")) not in nullable:
+                    continue
+                g = g or Guards(fn)
+                k += 1
+                ok = False
+                for atom, truth in (g.truths(n) or []):
+                    if truth and same_expr(atom, e):
+                        ok = True
+                for l, rel, rr in (g.cmps(n) or []):
+                    if rel == "!=" and same_expr(l, e) and folded(rr) == 0:
+                        ok = True
+                r.add("%s::%s::%s(%s)#%d" % (fn.relfile(), fn.qn, name, show(e), k), fn.loc(n), ok,
+                      "tested non-NULL" if ok else
+                      "`%s` can be NULL here (the last row of the table has no %s) and %s() dereferences it: an "
+                      "argument that matches no earlier row crashes the program" % (show(e), e.get("n"), name))
+    return r
+
+
 def run(ctx):
     prog = ctx.prog("basic", "N")
     res = [c19.rule_uninit(ctx, ["basic"], rule_id="R-C08-1"),
            rule_option_tables(prog), rule_exit_status(prog), rule_diagnosed_failures(prog), rule_longindex(prog),
-           rule_cursor_discipline(prog), rule_index_ranges(prog), rule_resource_typestate(prog)]
+           rule_cursor_discipline(prog), rule_index_ranges(prog), rule_resource_typestate(prog), rule_tables_filled(prog),
+           rule_nullable_table_strings(prog)]
     # the same table rule applies to dfs's global options
     dfs = ctx.prog("dfs", "N")
     r2 = rule_option_tables(dfs)
